@@ -391,11 +391,22 @@ func (e *Engine) explore(init *State, nworkers int) {
 }
 
 // runInit executes package initialisers of repo packages (concretely), on one worker.
-func (w *W) runInit(s *State, hp *ssa.Package) {
-	e := w.e
-	initFn := hp.Func("init")
+func (w *W) runInit(s *State, initFn *ssa.Function, lazy bool) {
+	if s.initDone == nil {
+		s.initDone = map[string]bool{}
+	}
+	if initFn.Pkg != nil {
+		s.initDone[initFn.Pkg.Pkg.Path()] = true
+	}
+	base := len(s.frames)
 	w.pushCall(s, initFn, nil, nil, nil, false)
-	s.top().isInit = true
+	if lazy {
+		s.top().isDefer = true // on return the interrupted instruction of the caller is re-executed
+	} else {
+		s.top().isInit = true
+	}
+	saveQ, saveR := s.replayQ, s.rpos
+	defer func() { s.replayQ, s.rpos = saveQ, saveR }()
 	poison := func(fr *Frame, in ssa.Instruction) {
 		if v, ok := in.(ssa.Value); ok {
 			fr.locals[v] = OpaqueV{"poisoned by skipped init instruction"}
@@ -403,18 +414,20 @@ func (w *W) runInit(s *State, hp *ssa.Package) {
 		fr.pc++
 	}
 	verbose := os.Getenv("SSASYM_V") != ""
-	for len(s.frames) >= 1 {
+	for len(s.frames) > base {
 		fr := s.top()
 		if fr.pc < len(fr.block.Instrs) {
 			if c, ok := fr.block.Instrs[fr.pc].(*ssa.Call); ok {
 				if callee := c.Call.StaticCallee(); callee != nil && callee.Pkg != nil {
 					pp := callee.Pkg.Pkg.Path()
 					if callee.Name() == "init" && callee.Synthetic != "" {
-						if !(isRepoPkg(pp) || initPkgAllow[pp]) || e.initPkgs[pp] {
+						// nested initialisers: eagerly for repo packages and the allow-list when starting
+						// up; a lazily initialised package leaves its imports to be initialised on demand
+						if lazy || !(isRepoPkg(pp) || initPkgAllow[pp]) || s.initDone[pp] {
 							fr.pc++
 							continue
 						}
-						e.initPkgs[pp] = true
+						s.initDone[pp] = true
 					} else if !isRepoPkg(pp) && !initCallAllow[pp] && fr.fn.Synthetic != "" && fr.fn.Name() == "init" {
 						// foreign call made directly by a package initialiser: skip, poison result
 						if _, isIntr := intrinsics[callee.String()]; !isIntr {
@@ -438,26 +451,26 @@ func (w *W) runInit(s *State, hp *ssa.Package) {
 			if verbose {
 				fmt.Println("init: trap", r.status, "at", where(s))
 			}
-			w.unwindInit(s, poison)
-			if len(s.frames) == 0 {
+			w.unwindInit(s, poison, base)
+			if len(s.frames) <= base {
 				return
 			}
 		case execErr:
 			if verbose {
 				fmt.Println("init: skipping", where(s), ":", firstLine(r.msg))
 			}
-			w.unwindInit(s, poison)
-			if len(s.frames) == 0 {
+			w.unwindInit(s, poison, base)
+			if len(s.frames) <= base {
 				return
 			}
 		case forkReq:
-			w.unwindInit(s, poison)
-			if len(s.frames) == 0 {
+			w.unwindInit(s, poison, base)
+			if len(s.frames) <= base {
 				return
 			}
 		case blockReq:
-			w.unwindInit(s, poison)
-			if len(s.frames) == 0 {
+			w.unwindInit(s, poison, base)
+			if len(s.frames) <= base {
 				return
 			}
 		}
@@ -465,11 +478,11 @@ func (w *W) runInit(s *State, hp *ssa.Package) {
 }
 
 // unwindInit pops to the nearest package initialiser frame and skips its current instruction.
-func (w *W) unwindInit(s *State, poison func(*Frame, ssa.Instruction)) {
-	for len(s.frames) > 0 && !(s.top().fn.Name() == "init" && s.top().fn.Synthetic != "") {
+func (w *W) unwindInit(s *State, poison func(*Frame, ssa.Instruction), base int) {
+	for len(s.frames) > base && !(s.top().fn.Name() == "init" && s.top().fn.Synthetic != "") {
 		s.frames = s.frames[:len(s.frames)-1]
 	}
-	if len(s.frames) == 0 {
+	if len(s.frames) <= base {
 		return
 	}
 	fr := s.top()
